@@ -213,6 +213,21 @@ def run_case(case, ctx):
         if truth_of[repr(op)][0] != 'ok':
             return {'violations': [], 'inconclusive': 'fault-free %s%s does not return (%s)' % (op[0], op[1], truth_of[repr(op)][:2]),
                     'counters': counters}
+        if backend == 'blob':
+            # "the true data": what the serial local backend returns for the same call (itself checked against the O-SPEC decode by C02);
+            # the parallel backend with no fault at all must agree with it
+            hl = monitors.MonFile(path)
+            rl = SgzReader(hl)
+            loc = run_op_guarded(rl, op)
+            try:
+                _clear(rl)
+                hl.close()
+            except Exception:  # noqa
+                pass
+            counters['blob_vs_local_compared'] = counters.get('blob_vs_local_compared', 0) + 1
+            if loc != truth_of[repr(op)]:
+                bad.append({'sig': 'blob:%s:fault-free-result-differs-from-local-backend' % op[0],
+                            'detail': '%s%s: parallel backend %s, local backend %s' % (op[0], op[1], truth_of[repr(op)][:1], loc[:1])})
 
     # what is asked of the same reader after a failed call (besides repeating it): the other header / trace accessors
     hdr_like = [o for o in ops if o[0] in ('gen_trace_header', 'get_tracefield_values', 'get_trace')]
